@@ -2975,3 +2975,195 @@ def m_forget( ctx ):
     else:
         res.ok( src, fn, '_forget clears a polled register and never adds one ( %d cells )' % res.cells )
     return res
+
+
+# ---------------------------------------------------------------------------------------- C12: W-LATEBIND (tables of callables built in a loop)
+
+def _late_bound( tree ):
+    """( function node, enclosing loop, names ) for every lambda / nested def made inside a `for` loop of its own scope whose body reads the
+    loop's target names as FREE variables ( not bound as parameters or defaults ): the name is looked up when the function is CALLED - after
+    the loop, every one of them sees the values of the last round"""
+    par = {}
+    for n in ast.walk( tree ):
+        for c in ast.iter_child_nodes( n ):
+            par[c] = n
+    out = []
+    for n in ast.walk( tree ):
+        if not isinstance( n, ( ast.Lambda, ast.FunctionDef )):
+            continue
+        a = par.get( n ); loops = []; inner = n
+        called_here = False
+        while a is not None and not isinstance( a, ( ast.FunctionDef, ast.Lambda, ast.ClassDef, ast.Module )):
+            if isinstance( a, ast.Call ) and a.func is inner:	# ( lambda ...: ... )( ... ): called on the spot
+                called_here = True
+            if isinstance( a, ast.For ) and inner not in ( a.iter, a.target ):
+                loops.append( a )
+            inner = a
+            a = par.get( a )
+        if not loops or called_here:
+            continue
+        targets = { x.id for l in loops for x in ast.walk( l.target ) if isinstance( x, ast.Name ) }
+        ar = n.args
+        params = { p.arg for p in ar.posonlyargs + ar.args + ar.kwonlyargs } | ( { ar.vararg.arg } if ar.vararg else set()) | ( { ar.kwarg.arg } if ar.kwarg else set())
+        body = n.body if isinstance( n.body, list ) else [ n.body ]
+        local = { x.id for b in body for x in ast.walk( b ) if isinstance( x, ast.Name ) and isinstance( x.ctx, ast.Store ) }
+        free = { x.id for b in body for x in ast.walk( b ) if isinstance( x, ast.Name ) and isinstance( x.ctx, ast.Load ) } - params - local
+        hit = free & targets
+        if hit:
+            out.append(( n, loops[0], sorted( hit )))
+    return out
+
+
+@rule( 'W-LATEBIND', props=( 'C12', 'C02' ), floor=1 )
+def w_latebind( ctx ):
+    """no callable made in a loop reads the loop's variables late: a lambda / def created inside a `for` and kept beyond the round ( stored in a
+    table such as client.CIP_TYPES, appended, returned ) names the loop's targets only through parameters or defaults - as a free variable the
+    name is resolved at call time, and every entry of the table then validates / converts with the bounds of the LAST entry"""
+    res = Result( 'W-LATEBIND' )
+    files = [ f for f in ctx.model.all_python() ]
+    scanned = 0
+    for rel in files:
+        src = ctx.src( rel )
+        fns = [ n for n in ast.walk( src.tree ) if isinstance( n, ( ast.Lambda, ast.FunctionDef )) ]
+        scanned += len( fns )
+        for fn, loop, names in _late_bound( src.tree ):
+            # used up within the round: handed straight to a call that consumes it at once ( sorted / min / max / filter / map / any / all key= ... )
+            par = src.parent.get( fn )
+            if isinstance( par, ( ast.Call, ast.keyword )):
+                call = par if isinstance( par, ast.Call ) else src.parent.get( par )
+                if isinstance( call, ast.Call ) and call_name( call ) in ( 'sorted', 'min', 'max', 'any', 'all', 'sum', 'next', 'list', 'tuple' ) :
+                    res.ok( src, fn, 'callable over the loop variable %s consumed within the round by %s(...)' % ( ', '.join( names ), call_name( call )))
+                    continue
+            res.bad( src, fn, 'a callable made in the loop over %s reads %s as free variable%s ( %s )' % (
+                         norm_text( loop.target ), ', '.join( names ), 's' if len( names ) > 1 else '', norm_text( fn )[:60] ),
+                     'the name is looked up when the callable runs: once the loop is over every entry made by it works with the values of the last round - eg. every integer type of a table validated against the range of the last one' )
+    res.cells = scanned
+    if scanned < 300:
+        raise AnalysisError( 'W-LATEBIND: only %d functions / lambdas scanned' % scanned )
+    # positive fixture: the rule's own pattern matches the known-bad shape, and not its repaired twin
+    fx = ast.parse( 'T = {}\nfor k, lo, hi in rows:\n    T[k] = lambda x: check( x, lo, hi )\n' )
+    ok = ast.parse( 'T = {}\nfor k, lo, hi in rows:\n    T[k] = lambda x, lo=lo, hi=hi: check( x, lo, hi )\n' )
+    if len( _late_bound( fx )) != 1 or _late_bound( ok ):
+        raise AnalysisError( 'W-LATEBIND: fixture not recognised' )
+    res.ok( ctx.src( files[0] ), None, 'no callable made in a loop reads the loop\'s variables late ( %d functions and lambdas in %d files scanned; fixture matched )' % ( scanned, len( files )))
+    return res
+
+
+# ---------------------------------------------------------------------------------------- C12: T-PATHCOMP (one text term -> its path segments)
+
+@rule( 'T-PATHCOMP', props=( 'C12', ), floor=1 )
+def t_pathcomp( ctx ):
+    """device.parse_path_component turns one term of an operation's text ( Tag, Tag[5], Tag[2-4], Tag[2]*3, @class/instance/attribute[/element] )
+    into the segments, first element and count it names - decided by value: the whole function is evaluated on a table of terms.  An [index]
+    behind a term that names an element already REPLACES it ( one element segment, the last ); a range gives first element and count"""
+    import json
+    res = Result( 'T-PATHCOMP' )
+    src = ctx.src( 'server/enip/device.py' )
+    fn = src.get( 'parse_path_component' )
+    params = [ a.arg for a in fn.args.args ]
+    if len( params ) != 3:
+        raise AnalysisError( 'parse_path_component: expected ( path, elm, cnt ), found %s' % params )
+    body = [ s for s in fn.body if not ( isinstance( s, ast.Expr ) and isinstance( s.value, ast.Constant )) ]
+    TABLE = (
+        ( 'Tag',               ( [ { 'symbolic': 'Tag' } ], None, None )),
+        ( 'Tag[5]',            ( [ { 'symbolic': 'Tag' }, { 'element': 5 } ], 5, None )),
+        ( 'Tag[0]',            ( [ { 'symbolic': 'Tag' }, { 'element': 0 } ], 0, None )),
+        ( 'Tag[2]*3',          ( [ { 'symbolic': 'Tag' }, { 'element': 2 } ], 2, 3 )),
+        ( 'Tag*4',             ( [ { 'symbolic': 'Tag' } ], None, 4 )),
+        ( 'Tag[2-4]',          ( [ { 'symbolic': 'Tag' }, { 'element': 2 } ], 2, 3 )),
+        ( 'Tag[7-7]',          ( [ { 'symbolic': 'Tag' }, { 'element': 7 } ], 7, 1 )),
+        ( 'Tag[3-1]',          'raise' ),
+        ( 'Tag[1]x',           'raise' ),
+        ( '@0x22/1/2',         ( [ { 'class': 0x22 }, { 'instance': 1 }, { 'attribute': 2 } ], None, None )),
+        ( '@0x22/1/2[5]',      ( [ { 'class': 0x22 }, { 'instance': 1 }, { 'attribute': 2 }, { 'element': 5 } ], 5, None )),
+        ( '@0x22/1/2/3',       ( [ { 'class': 0x22 }, { 'instance': 1 }, { 'attribute': 2 }, { 'element': 3 } ], None, None )),
+        ( '@0x22/1/2/3[5]',    ( [ { 'class': 0x22 }, { 'instance': 1 }, { 'attribute': 2 }, { 'element': 5 } ], 5, None )),
+        ( '@0x22/1/2[5-7]',    ( [ { 'class': 0x22 }, { 'instance': 1 }, { 'attribute': 2 }, { 'element': 5 } ], 5, 3 )),
+        ( '@{"element":3}[9]', ( [ { 'element': 9 } ], 9, None )),
+        ( '@1/2/3/4/5',        'raise' ),
+    )
+    wrong = []
+    for text, want in TABLE:
+        env = { params[0]: text, params[1]: None, params[2]: None, 'parse_int': lambda x: int( x, 0 ), 'json.loads': json.loads,
+                'int': int, 'len': len, 'enumerate': enumerate, 'Exception': Exception, 'str': str }
+        try:
+            out = run_block( body, env, ignore_calls=( 'log', ))
+        except Raises as exc:
+            out = None; got = 'raise'
+        except NoFold as exc:
+            raise AnalysisError( 'parse_path_component: outside the modelled subset for %r: %s' % ( text, str( exc )[:80] ))
+        if out is not None:
+            got = 'raise' if out.kind == 'raise' else out.value if out.kind == 'return' else out.kind
+            if isinstance( got, tuple ) and len( got ) == 3:
+                got = ( [ dict( s_ ) for s_ in got[0] ], got[1], got[2] )
+        res.cells += 1
+        if got != want:
+            wrong.append(( text, want, got ))
+    if wrong:
+        text, want, got = wrong[0]
+        res.bad( src, fn, 'parse_path_component( %r ) gives %s, not %s ( %d of %d terms differ )' % ( text, got, want, len( wrong ), len( TABLE )),
+                 'the operation is sent with another path, first element or count than its text names: eg. an [index] behind a term that already names an element adds a second element segment - the request addresses an element of an element' )
+    else:
+        res.ok( src, fn, 'parse_path_component gives segments, first element and count of every term of the table ( %d terms, 3 refused )' % len( TABLE ))
+    return res
+
+
+# ---------------------------------------------------------------------------------------- C15: T-PORTLINK (one 'port/link' text -> the segment it spells)
+
+@rule( 'T-PORTLINK', props=( 'C15', ), floor=1 )
+def t_portlink( ctx ):
+    """device.port_link gives the segment a 'port/link' text, pair or dict spells - decided by value: the whole function is evaluated on a table
+    of spellings ( every link number a single octet carries, 0 and 255 included; IPv4 / IPv6 links; blanks around the numbers ), and refuses
+    what spells none ( port 0, a non-numeric port, one component, three )"""
+    import ipaddress
+    res = Result( 'T-PORTLINK' )
+    src = ctx.src( DEVICE )
+    fn = src.get( 'port_link' )
+    params = [ a.arg for a in fn.args.args ]
+    if len( params ) != 1:
+        raise AnalysisError( 'port_link: expected one parameter, found %s' % params )
+    body = [ s for s in fn.body if not ( isinstance( s, ast.Expr ) and isinstance( s.value, ast.Constant )) ]
+    TABLE = (
+        ( '1/0',              { 'port': 1, 'link': 0 } ),
+        ( '1/1',              { 'port': 1, 'link': 1 } ),
+        ( '1/254',            { 'port': 1, 'link': 254 } ),
+        ( '1/255',            { 'port': 1, 'link': 255 } ),
+        ( '15/7',             { 'port': 15, 'link': 7 } ),
+        ( ' 1 / 2 ',          { 'port': 1, 'link': 2 } ),
+        ( '2/1.2.3.4',        { 'port': 2, 'link': '1.2.3.4' } ),
+        ( '2/::1',            { 'port': 2, 'link': '::1' } ),
+        ( ( 3, 4 ),           { 'port': 3, 'link': 4 } ),
+        ( [ '3', '255' ],     { 'port': 3, 'link': 255 } ),
+        ( { 'port': 1, 'link': 15 }, { 'port': 1, 'link': 15 } ),
+        ( { 'port': '1', 'link': '0' }, { 'port': 1, 'link': 0 } ),
+        ( '0/1',              'raise' ),
+        ( 'x/1',              'raise' ),
+        ( '1',                'raise' ),
+        ( '1/1/2',            'raise' ),
+        ( '1/no.such.host.',  'raise' ),
+        ( ( 1, 2, 3 ),        'raise' ),
+    )
+    def ip_( a ):
+        return ipaddress.ip_address( a if not isinstance( a, bytes ) else a.decode())
+    wrong = []
+    for spelled, want in TABLE:
+        given = dict( spelled ) if isinstance( spelled, dict ) else list( spelled ) if isinstance( spelled, list ) else spelled
+        env = { params[0]: given, 'type_str_base': str, 'isinstance': isinstance, 'map': map, 'str': str, 'int': int, 'dict': dict, 'list': list, 'tuple': tuple, 'len': len,
+                'str.strip': str.strip, 'misc.ip': ip_, 'ip': ip_, 'Exception': Exception, 'AssertionError': AssertionError, 'ValueError': ValueError, 'TypeError': TypeError }
+        try:
+            out = run_block( body, env, ignore_calls=( 'log', ))
+            got = 'raise' if out.kind == 'raise' else dict( out.value ) if out.kind == 'return' and isinstance( out.value, dict ) else ( out.kind, out.value )
+        except Raises as exc:
+            got = 'raise'
+        except NoFold as exc:
+            raise AnalysisError( 'port_link: outside the modelled subset for %r: %s' % ( spelled, str( exc )[:80] ))
+        res.cells += 1
+        if got != want:
+            wrong.append(( spelled, want, got ))
+    if wrong:
+        spelled, want, got = wrong[0]
+        res.bad( src, fn, 'port_link( %r ) gives %s, not %s ( %d of %d spellings differ )' % ( spelled, got, want, len( wrong ), len( TABLE )),
+                 'a route path spelled that way is refused, or denotes another segment than it spells: the simulator configured with it accepts other requests than the configured route' )
+    else:
+        res.ok( src, fn, 'port_link gives the segment every spelling of the table denotes ( %d spellings, 6 refused )' % len( TABLE ))
+    return res
